@@ -143,6 +143,11 @@ func main() {
 			a := ev.M{"ran": te.Num(ran), "nas": ev.Ints(n), "plmn": ev.Ints(curPlmn)}
 			r.emit("GetInitialUEMessage", a, func() ([]byte, error) { return tglib.GetInitialUEMessage(ran, n, "") })
 		}
+		{
+			n, ran := nas(40), int64(77)
+			a := ev.M{"ran": te.Num(ran), "nas": ev.Ints(n), "plmn": ev.Ints(curPlmn)}
+			r.emit("GetInitialUEMessage", a, func() ([]byte, error) { return tglib.GetInitialUEMessage(ran, n, "fe0000000001") }) // with the optional 5G-S-TMSI
+		}
 		for _, nl := range nasLens {
 			n := nas(nl)
 			ran := pick(ranIds[:7])
@@ -185,6 +190,20 @@ func main() {
 			var lst []int64
 			for i := rg.Intn(4); i > 0; i-- {
 				lst = append(lst, int64(rg.Intn(256)))
+			}
+			// fixed list shapes by round: the extremes of the element range, elements just outside it, 256 and 257 entries
+			switch ai {
+			case 1:
+				lst = []int64{0, 255}
+			case 2:
+				lst = []int64{7, 256}
+			case 3:
+				lst = []int64{-1}
+			case 4, 5:
+				lst = nil
+				for i := 0; i < 252+ai; i++ {
+					lst = append(lst, int64(i%256))
+				}
 			}
 			a6 := A(amf6, ran6)
 			li := []int{}
